@@ -20,7 +20,9 @@ def plan(tier, ctx):
                         core=True, family="SUBFIELD"))
     # (a) inversion: ALL n x n matrices with entries in a subfield, real log/antilog tables
     # core = decided with >= 3x margin under the quick cap; 3x3/GF(4) and 4x4/GF(2) need ~2 min each on an idle machine
-    inv = [(2, 16, True), (3, 2, True), (2, 4, True), (2, 2, False), (1, 16, False), (3, 4, False), (4, 2, False)]
+    inv = [(2, 16, True), (3, 2, True), (2, 4, True), (2, 2, False), (1, 16, False)]
+    if not quick:
+        inv += [(3, 4, False), (4, 2, False)]
     for (n, f, core) in inv:
         qs.append(Query("INVERT/n%d_gf%d" % (n, f), R,
                         dict(harness=H, units=U, hdefines=["H_INVERT", "N=%d" % n, "FIELD=%d" % f, "DETMAX=4"], unwind=max(17, n * n + 1),
@@ -51,7 +53,7 @@ def plan(tier, ctx):
                                  unwind=m * k + 2, witness=(m, k) == (6, 3), timeout=900, mem_gb=16), core=(m, k) == (6, 3), family="RECOVER/" + gen[4:], weight=m * k))
     return Plan("C09", "model_checking", qs, engine="cbmc-c",
                 functions_encoded=["gf_invert_matrix", "gf_gen_cauchy1_matrix", "gf_gen_rs_matrix", "gf_mul", "gf_inv (erasure_code/ec_base.c)"],
-                bounds={"inversion": "ALL n x n matrices with entries in a subfield: 2x2/GF(16), 3x3/GF(4), 4x4/GF(2) (+ 5x5/GF(2), 3x3/GF(16), 4x4/GF(4) thorough); "
+                bounds={"inversion": "ALL n x n matrices with entries in a subfield: quick 2x2/GF(16), 2x2/GF(4), 3x3/GF(2); thorough also 3x3/GF(4), 4x4/GF(2), 5x5/GF(2), 3x3/GF(16), 4x4/GF(4); "
                                      "ret in {0,-1}; ret==0 <=> det != 0 (cofactor determinant); ret==0 => A*out == out*A == I; nothing written past n*n",
                         "generators": {"cauchy (m,k)": cau, "rs (m,k)": rsm, "position": "symbolic (i,j)"},
                         "recovery": {"cauchy (m,k)": rec_c, "rs (m,k), documented-safe only": rec_r, "erasure pattern": "k symbolic strictly increasing survivor indices"}},
